@@ -224,7 +224,7 @@ pub fn property() -> Property {
     let r1 = RandomSub::<String>::new(
         "grammar-mutants",
         (60_000, 1_500_000),
-        |_| prop_oneof![2 => spelled(), 3 => mutate(spelled()), 1 => mutate(mutate(spelled()))].boxed(),
+        |_| prop_oneof![4 => spelled(), 6 => mutate(spelled()), 2 => mutate(mutate(spelled())), 1 => crate::props::c08::calver_like()].boxed(),
         check_one,
     )
     .floor(0.3);
@@ -262,6 +262,7 @@ pub fn property() -> Property {
                 3 => (gens::pep::pepv(4), 0u8..10, 0usize..12).prop_map(|(p, kind, k)| gens::pep::one_deviation(&p, kind, k)),
                 2 => spelled(),
                 1 => mutate(spelled()),
+                1 => crate::props::c08::calver_like(),
             ]
             .boxed()
         },
